@@ -1,5 +1,6 @@
 import Librfn.Gen.MessageqSeq
 import Librfn.Model.Messageq
+import Librfn.Props.C10
 import Std.Tactic.BVDecide
 /-!
 # C10 / C04 / C06 — tie T for `messageq.c` (sequential meaning of every function)
@@ -37,9 +38,18 @@ def slotAddrBV (b : BitVec 64) (ml : BitVec 16) (i : BitVec 8) : BitVec 64 :=
 def slotOfBV (b : BitVec 64) (ml : BitVec 16) (msg : BitVec 64) : BitVec 32 :=
   BitVec.udiv (BitVec.setWidth 32 (msg - b)) (ml.setWidth 32)
 
-/-! ### layer 1: generated code = reference, all inputs (`bv_decide`) -/
+/-- the states the property quantifies over (and every reachable state of the model satisfies, `wf_of_rel`): depth 1..32,
+    message size >= 1, indices inside the ring, free counter at most the depth -/
+def wfBV (ml : BitVec 16) (ql nf sp rp : BitVec 8) : Bool :=
+  BitVec.ule 1#8 ql && BitVec.ule ql 32#8 && BitVec.ult sp ql && BitVec.ult rp ql && BitVec.ule nf ql && BitVec.ule 1#16 ml
 
-theorem claim_generated (b : BitVec 64) (ml : BitVec 16) (ql nf sp : BitVec 8) (fl : BitVec 32) (rp : BitVec 8) :
+/-! ### layer 1: generated code = reference on every well-formed structure (`bv_decide`)
+
+A rewrite of the C that differs only on structures no history can produce (depth 0, an index outside the ring, an offset
+beyond the queue's memory) re-proves; the hypotheses are exactly `wfBV` (+ `msg` inside the first 2 MiB for `send`). -/
+
+theorem claim_generated (b : BitVec 64) (ml : BitVec 16) (ql nf sp : BitVec 8) (fl : BitVec 32) (rp : BitVec 8)
+    (hwf : wfBV ml ql nf sp rp = true) :
     (messageq_claim b ml ql nf sp fl rp).ub = false ∧ (messageq_claim b ml ql nf sp fl rp).exh = false ∧
     (messageq_claim b ml ql nf sp fl rp).mq_basep = b ∧ (messageq_claim b ml ql nf sp fl rp).mq_msg_len = ml ∧
     (messageq_claim b ml ql nf sp fl rp).mq_queue_len = ql ∧ (messageq_claim b ml ql nf sp fl rp).mq_full_flags = fl ∧
@@ -47,20 +57,24 @@ theorem claim_generated (b : BitVec 64) (ml : BitVec 16) (ql nf sp : BitVec 8) (
     (messageq_claim b ml ql nf sp fl rp).mq_num_free = (if nf = 0#8 then nf else nf - 1#8) ∧
     (messageq_claim b ml ql nf sp fl rp).mq_sendp = (if nf = 0#8 then sp else nextSendBV ql sp) ∧
     (messageq_claim b ml ql nf sp fl rp).ret = (if nf = 0#8 then 0#64 else slotAddrBV b ml sp) := by
+  unfold wfBV at hwf
   unfold messageq_claim nextSendBV slotAddrBV
   bv_decide (config := { timeout := 300 })
 
-theorem send_generated (b : BitVec 64) (ml : BitVec 16) (ql nf sp : BitVec 8) (fl : BitVec 32) (rp : BitVec 8) (msg : BitVec 64) :
+theorem send_generated (b : BitVec 64) (ml : BitVec 16) (ql nf sp : BitVec 8) (fl : BitVec 32) (rp : BitVec 8) (msg : BitVec 64)
+    (hwf : wfBV ml ql nf sp rp = true) (hoff : (msg - b).ult 0x200000#64 = true) :
     (messageq_send b ml ql nf sp fl rp msg).ub = (ml == 0#16 || BitVec.ule 32#32 (slotOfBV b ml msg)) ∧
     (messageq_send b ml ql nf sp fl rp msg).exh = false ∧
     (messageq_send b ml ql nf sp fl rp msg).mq_basep = b ∧ (messageq_send b ml ql nf sp fl rp msg).mq_msg_len = ml ∧
     (messageq_send b ml ql nf sp fl rp msg).mq_queue_len = ql ∧ (messageq_send b ml ql nf sp fl rp msg).mq_num_free = nf ∧
     (messageq_send b ml ql nf sp fl rp msg).mq_sendp = sp ∧ (messageq_send b ml ql nf sp fl rp msg).mq_receivep = rp ∧
     (messageq_send b ml ql nf sp fl rp msg).mq_full_flags = (fl ||| (1#32 <<< slotOfBV b ml msg)) := by
+  unfold wfBV at hwf
   unfold messageq_send slotOfBV
   bv_decide (config := { timeout := 300 })
 
-theorem receive_generated (b : BitVec 64) (ml : BitVec 16) (ql nf sp : BitVec 8) (fl : BitVec 32) (rp : BitVec 8) :
+theorem receive_generated (b : BitVec 64) (ml : BitVec 16) (ql nf sp : BitVec 8) (fl : BitVec 32) (rp : BitVec 8)
+    (hwf : wfBV ml ql nf sp rp = true) :
     (messageq_receive b ml ql nf sp fl rp).ub = BitVec.ule 32#8 rp ∧ (messageq_receive b ml ql nf sp fl rp).exh = false ∧
     (messageq_receive b ml ql nf sp fl rp).mq_basep = b ∧ (messageq_receive b ml ql nf sp fl rp).mq_msg_len = ml ∧
     (messageq_receive b ml ql nf sp fl rp).mq_queue_len = ql ∧ (messageq_receive b ml ql nf sp fl rp).mq_num_free = nf ∧
@@ -68,30 +82,35 @@ theorem receive_generated (b : BitVec 64) (ml : BitVec 16) (ql nf sp : BitVec 8)
     (messageq_receive b ml ql nf sp fl rp).mq_full_flags = (fl &&& ~~~(1#32 <<< rp)) ∧
     (messageq_receive b ml ql nf sp fl rp).mq_receivep = (if fl &&& (1#32 <<< rp) = 0#32 then rp else nextRecvBV ql rp) ∧
     (messageq_receive b ml ql nf sp fl rp).ret = (if fl &&& (1#32 <<< rp) = 0#32 then 0#64 else slotAddrBV b ml rp) := by
+  unfold wfBV at hwf
   unfold messageq_receive nextRecvBV slotAddrBV
   bv_decide (config := { timeout := 300 })
 
-theorem release_generated (b : BitVec 64) (ml : BitVec 16) (ql nf sp : BitVec 8) (fl : BitVec 32) (rp : BitVec 8) (msg : BitVec 64) :
+theorem release_generated (b : BitVec 64) (ml : BitVec 16) (ql nf sp : BitVec 8) (fl : BitVec 32) (rp : BitVec 8) (msg : BitVec 64)
+    (hwf : wfBV ml ql nf sp rp = true) :
     (messageq_release b ml ql nf sp fl rp msg).ub = false ∧ (messageq_release b ml ql nf sp fl rp msg).exh = false ∧
     (messageq_release b ml ql nf sp fl rp msg).mq_basep = b ∧ (messageq_release b ml ql nf sp fl rp msg).mq_msg_len = ml ∧
     (messageq_release b ml ql nf sp fl rp msg).mq_queue_len = ql ∧ (messageq_release b ml ql nf sp fl rp msg).mq_num_free = nf + 1#8 ∧
     (messageq_release b ml ql nf sp fl rp msg).mq_sendp = sp ∧ (messageq_release b ml ql nf sp fl rp msg).mq_full_flags = fl ∧
     (messageq_release b ml ql nf sp fl rp msg).mq_receivep = rp := by
+  unfold wfBV at hwf
   unfold messageq_release
   bv_decide (config := { timeout := 300 })
 
-theorem empty_generated (b : BitVec 64) (ml : BitVec 16) (ql nf sp : BitVec 8) (fl : BitVec 32) (rp : BitVec 8) :
+theorem empty_generated (b : BitVec 64) (ml : BitVec 16) (ql nf sp : BitVec 8) (fl : BitVec 32) (rp : BitVec 8)
+    (hwf : wfBV ml ql nf sp rp = true) :
     (messageq_empty b ml ql nf sp fl rp).ub = BitVec.ule 32#8 rp ∧ (messageq_empty b ml ql nf sp fl rp).exh = false ∧
     (messageq_empty b ml ql nf sp fl rp).mq_basep = b ∧ (messageq_empty b ml ql nf sp fl rp).mq_msg_len = ml ∧
     (messageq_empty b ml ql nf sp fl rp).mq_queue_len = ql ∧ (messageq_empty b ml ql nf sp fl rp).mq_num_free = nf ∧
     (messageq_empty b ml ql nf sp fl rp).mq_sendp = sp ∧ (messageq_empty b ml ql nf sp fl rp).mq_full_flags = fl ∧
     (messageq_empty b ml ql nf sp fl rp).mq_receivep = rp ∧
     (messageq_empty b ml ql nf sp fl rp).ret = (if fl &&& (1#32 <<< rp) = 0#32 then 1#8 else 0#8) := by
+  unfold wfBV at hwf
   unfold messageq_empty
   bv_decide (config := { timeout := 300 })
 
 theorem init_generated (b0 : BitVec 64) (ml0 : BitVec 16) (ql0 nf0 sp0 : BitVec 8) (fl0 : BitVec 32) (rp0 : BitVec 8)
-    (basep baseLen msgLen : BitVec 64) :
+    (basep baseLen msgLen : BitVec 64) (hg : (BitVec.ule msgLen 65535#64 && BitVec.ult baseLen 0x400000#64) = true) :
     (messageq_init b0 ml0 ql0 nf0 sp0 fl0 rp0 basep baseLen msgLen).ub = (msgLen == 0#64) ∧
     (messageq_init b0 ml0 ql0 nf0 sp0 fl0 rp0 basep baseLen msgLen).exh = false ∧
     (messageq_init b0 ml0 ql0 nf0 sp0 fl0 rp0 basep baseLen msgLen).mq_basep = basep ∧
@@ -102,7 +121,7 @@ theorem init_generated (b0 : BitVec 64) (ml0 : BitVec 16) (ql0 nf0 sp0 : BitVec 
     (messageq_init b0 ml0 ql0 nf0 sp0 fl0 rp0 basep baseLen msgLen).mq_full_flags = 0#32 ∧
     (messageq_init b0 ml0 ql0 nf0 sp0 fl0 rp0 basep baseLen msgLen).mq_receivep = 0#8 := by
   unfold messageq_init
-  simp
+  bv_decide (config := { timeout := 300 })
 
 /-! ### layer 2: reference = hand model (never mentions generated code) -/
 
@@ -161,20 +180,23 @@ theorem slotAddrBV_eq (base : Nat) (ml : BitVec 16) (i : BitVec 8) :
   rw [Nat.mod_eq_of_lt (show i.toNat < 2 ^ 32 by omega), Nat.mod_eq_of_lt (show ml.toNat < 2 ^ 32 by omega)]
   rw [Nat.mod_eq_of_lt (show i.toNat * ml.toNat < 2 ^ 32 by omega), Nat.mod_eq_of_lt (show i.toNat * ml.toNat < 2 ^ 64 by omega)]
 
+/-- well-formed model state (`wfBV` of its fields) -/
+def WF (s : St) : Prop := wfBV s.msgLen s.qlen s.numFree s.sendp s.receivep = true
+
 /-- the structure the generated functions work on, seen as a model state -/
 def stOf (base : Nat) (ml : BitVec 16) (ql nf sp : BitVec 8) (fl : BitVec 32) (rp : BitVec 8) : St :=
   ⟨base, ml, ql, nf, sp, fl, rp⟩
 
 /-- **tie T, `messageq_claim`**: same structure afterwards, same pointer, never undefined, the compare-exchange
     loops end within the unrolling -/
-theorem claim_tie (s : St) :
+theorem claim_tie (s : St) (hwf : WF s) :
     let g := messageq_claim (BitVec.ofNat 64 s.base) s.msgLen s.qlen s.numFree s.sendp s.flags s.receivep
     g.ub = false ∧ g.exh = false ∧ g.mq_basep = BitVec.ofNat 64 s.base ∧
     stOf s.base g.mq_msg_len g.mq_queue_len g.mq_num_free g.mq_sendp g.mq_full_flags g.mq_receivep = (claim s).1 ∧
     g.ret = ptrBV s.base (claim s).2 := by
   obtain ⟨base, ml, ql, nf, sp, fl, rp⟩ := s
   obtain ⟨h1, h2, h3, h4, h5, h6, h7, h8, h9, h10⟩ :=
-    claim_generated (BitVec.ofNat 64 base) ml ql nf sp fl rp
+    claim_generated (BitVec.ofNat 64 base) ml ql nf sp fl rp hwf
   refine ⟨h1, h2, h3, ?_, ?_⟩
   · rw [h4, h5, h6, h7, h8, h9]
     unfold claim stOf
@@ -211,7 +233,7 @@ theorem shl_eq_bit (x : BitVec 32) : (1#32 <<< x) = bit x.toNat := by
 
 /-- **tie T, `messageq_send`** (`msg = basep + off`): undefined in C exactly when the model says so, otherwise the
     same structure afterwards -/
-theorem send_tie (s : St) (off : Nat) :
+theorem send_tie (s : St) (off : Nat) (hwf : WF s) (hoff : off < 2097152) :
     let g := messageq_send (BitVec.ofNat 64 s.base) s.msgLen s.qlen s.numFree s.sendp s.flags s.receivep
       (BitVec.ofNat 64 s.base + BitVec.ofNat 64 off)
     g.exh = false ∧ g.mq_basep = BitVec.ofNat 64 s.base ∧ (g.ub = true ↔ send s off = none) ∧
@@ -219,7 +241,12 @@ theorem send_tie (s : St) (off : Nat) :
       stOf s.base g.mq_msg_len g.mq_queue_len g.mq_num_free g.mq_sendp g.mq_full_flags g.mq_receivep = s') := by
   obtain ⟨base, ml, ql, nf, sp, fl, rp⟩ := s
   obtain ⟨h1, h2, h3, h4, h5, h6, h7, h8, h9⟩ :=
-    send_generated (BitVec.ofNat 64 base) ml ql nf sp fl rp (BitVec.ofNat 64 base + BitVec.ofNat 64 off)
+    send_generated (BitVec.ofNat 64 base) ml ql nf sp fl rp (BitVec.ofNat 64 base + BitVec.ofNat 64 off) hwf (by
+      have e : BitVec.ofNat 64 base + BitVec.ofNat 64 off - BitVec.ofNat 64 base = BitVec.ofNat 64 off := by
+        rw [BitVec.add_comm, BitVec.add_sub_cancel]
+      rw [e]
+      simp only [BitVec.ult, BitVec.toNat_ofNat, decide_eq_true_eq]
+      omega)
   have hs := slotOfBV_toNat base ml off
   have hml : (ml == 0#16) = decide (ml.toNat = 0) := by
     by_cases h : ml = 0#16
@@ -249,14 +276,14 @@ theorem send_tie (s : St) (off : Nat) :
         rfl
 
 /-- **tie T, `messageq_receive`** -/
-theorem receive_tie (s : St) :
+theorem receive_tie (s : St) (hwf : WF s) :
     let g := messageq_receive (BitVec.ofNat 64 s.base) s.msgLen s.qlen s.numFree s.sendp s.flags s.receivep
     g.exh = false ∧ g.mq_basep = BitVec.ofNat 64 s.base ∧ (g.ub = true ↔ receive s = none) ∧
     (∀ r, receive s = some r →
       stOf s.base g.mq_msg_len g.mq_queue_len g.mq_num_free g.mq_sendp g.mq_full_flags g.mq_receivep = r.1 ∧
       g.ret = ptrBV s.base r.2) := by
   obtain ⟨base, ml, ql, nf, sp, fl, rp⟩ := s
-  obtain ⟨h1, h2, h3, h4, h5, h6, h7, h8, h9, h10⟩ := receive_generated (BitVec.ofNat 64 base) ml ql nf sp fl rp
+  obtain ⟨h1, h2, h3, h4, h5, h6, h7, h8, h9, h10⟩ := receive_generated (BitVec.ofNat 64 base) ml ql nf sp fl rp hwf
   have hule : BitVec.ule 32#8 rp = decide (rp.toNat ≥ 32) := by simp [BitVec.ule]
   have hsh : (1#32 <<< rp) = bit rp.toNat := shl_eq_bit' rp
   refine ⟨h2, h3, ?_, ?_⟩
@@ -284,23 +311,23 @@ theorem receive_tie (s : St) :
         exact ⟨rfl, rfl⟩
 
 /-- **tie T, `messageq_release`** -/
-theorem release_tie (s : St) (msg : BitVec 64) :
+theorem release_tie (s : St) (msg : BitVec 64) (hwf : WF s) :
     let g := messageq_release (BitVec.ofNat 64 s.base) s.msgLen s.qlen s.numFree s.sendp s.flags s.receivep msg
     g.ub = false ∧ g.exh = false ∧ g.mq_basep = BitVec.ofNat 64 s.base ∧
     stOf s.base g.mq_msg_len g.mq_queue_len g.mq_num_free g.mq_sendp g.mq_full_flags g.mq_receivep = release s := by
   obtain ⟨base, ml, ql, nf, sp, fl, rp⟩ := s
-  obtain ⟨h1, h2, h3, h4, h5, h6, h7, h8, h9⟩ := release_generated (BitVec.ofNat 64 base) ml ql nf sp fl rp msg
+  obtain ⟨h1, h2, h3, h4, h5, h6, h7, h8, h9⟩ := release_generated (BitVec.ofNat 64 base) ml ql nf sp fl rp msg hwf
   refine ⟨h1, h2, h3, ?_⟩
   rw [h4, h5, h6, h7, h8, h9]; rfl
 
 /-- **tie T, `messageq_empty`** (the inline function of `messageq.h`) -/
-theorem empty_tie (s : St) :
+theorem empty_tie (s : St) (hwf : WF s) :
     let g := messageq_empty (BitVec.ofNat 64 s.base) s.msgLen s.qlen s.numFree s.sendp s.flags s.receivep
     g.exh = false ∧ (g.ub = true ↔ empty s = none) ∧
     stOf s.base g.mq_msg_len g.mq_queue_len g.mq_num_free g.mq_sendp g.mq_full_flags g.mq_receivep = s ∧
     (∀ b, empty s = some b → g.ret = (if b then 1#8 else 0#8)) := by
   obtain ⟨base, ml, ql, nf, sp, fl, rp⟩ := s
-  obtain ⟨h1, h2, h3, h4, h5, h6, h7, h8, h9, h10⟩ := empty_generated (BitVec.ofNat 64 base) ml ql nf sp fl rp
+  obtain ⟨h1, h2, h3, h4, h5, h6, h7, h8, h9, h10⟩ := empty_generated (BitVec.ofNat 64 base) ml ql nf sp fl rp hwf
   have hule : BitVec.ule 32#8 rp = decide (rp.toNat ≥ 32) := by simp [BitVec.ule]
   have hsh : (1#32 <<< rp) = bit rp.toNat := shl_eq_bit' rp
   refine ⟨h2, ?_, ?_, ?_⟩
@@ -323,13 +350,17 @@ theorem empty_tie (s : St) :
 /-- **tie T, `messageq_init`** (`size_t` arguments below 2^64): undefined exactly for a zero message size, otherwise the
     structure the model builds whatever the structure held before -/
 theorem init_tie (b0 : BitVec 64) (ml0 : BitVec 16) (ql0 nf0 sp0 : BitVec 8) (fl0 : BitVec 32) (rp0 : BitVec 8)
-    (base baseLen msgLen : Nat) (hb : baseLen < 2 ^ 64) (hm : msgLen < 2 ^ 64) :
+    (base baseLen msgLen : Nat) (hb : baseLen < 4194304) (hm : msgLen ≤ 65535) :
     let g := messageq_init b0 ml0 ql0 nf0 sp0 fl0 rp0 (BitVec.ofNat 64 base) (BitVec.ofNat 64 baseLen) (BitVec.ofNat 64 msgLen)
     g.exh = false ∧ (g.ub = true ↔ init base baseLen msgLen = none) ∧ g.mq_basep = BitVec.ofNat 64 base ∧
     (∀ s, init base baseLen msgLen = some s →
       stOf base g.mq_msg_len g.mq_queue_len g.mq_num_free g.mq_sendp g.mq_full_flags g.mq_receivep = s) := by
   obtain ⟨h1, h2, h3, h4, h5, h6, h7, h8, h9⟩ :=
-    init_generated b0 ml0 ql0 nf0 sp0 fl0 rp0 (BitVec.ofNat 64 base) (BitVec.ofNat 64 baseLen) (BitVec.ofNat 64 msgLen)
+    init_generated b0 ml0 ql0 nf0 sp0 fl0 rp0 (BitVec.ofNat 64 base) (BitVec.ofNat 64 baseLen) (BitVec.ofNat 64 msgLen) (by
+      simp only [BitVec.ule, BitVec.ult, BitVec.toNat_ofNat, Bool.and_eq_true, decide_eq_true_eq]
+      omega)
+  have hb : baseLen < 2 ^ 64 := by omega
+  have hm : msgLen < 2 ^ 64 := by omega
   have hz : (BitVec.ofNat 64 msgLen == 0#64) = decide (msgLen = 0) := by
     by_cases h : msgLen = 0
     · subst h; rfl
@@ -358,5 +389,16 @@ theorem init_tie (b0 : BitVec 64) (ml0 : BitVec 16) (ql0 nf0 sp0 : BitVec 8) (fl
       injection hs with hs
       rw [← hs, h4, h5, h6, h7, h8, h9, hdiv, hml]
       rfl
+
+/-- every state the C10 refinement theorem can reach (`Librfn.C10.Rel`, preserved along every permitted history by
+    `rel_after`) is well-formed, so the `*_tie` theorems apply to it -/
+theorem wf_of_rel (s : St) (f : Librfn.Spec.MessageqFifo.Fifo) (h : Librfn.C10.Rel s f) : WF s := by
+  unfold WF wfBV
+  have h1 := h.qlen; have h2 := h.msgLen; have h3 := h.qpos; have h4 := h.q32; have h5 := h.mpos
+  have h6 := h.free; have h7 := h.sendp; have h8 := h.receivep
+  have m1 : f.claimed % f.qlen < f.qlen := Nat.mod_lt _ (by omega)
+  have m2 : f.received % f.qlen < f.qlen := Nat.mod_lt _ (by omega)
+  simp only [Bool.and_eq_true, BitVec.ule, BitVec.ult, decide_eq_true_eq, BitVec.toNat_ofNat]
+  refine ⟨⟨⟨⟨⟨?_, ?_⟩, ?_⟩, ?_⟩, ?_⟩, ?_⟩ <;> omega
 
 end Librfn.C10.Tie
